@@ -11,7 +11,7 @@ const ALWAYS: [&str; 2] = ["x-req-a", "Content-Type"];
 const IFIN: [&str; 2] = ["x-opt-c", "ETag"];
 const PREFIXES: [&str; 2] = ["x-p-", "X-Amz"];
 /// optional request headers (x-amz-date is always present on the header carrier)
-const HDRS: [&str; 7] = ["x-req-a", "content-type", "x-opt-c", "etag", "x-p-1", "x-p-2", "x-other"];
+const HDRS: [&str; 7] = ["x-req-a", "content-type", "x-opt-c", "etag", "x-p-1", "x-p-", "x-other"];
 
 fn recase(s: &str, style: u64) -> String {
     match style {
@@ -109,7 +109,7 @@ pub fn run(ctx: &Ctx) -> Report {
     Report {
         stats: st,
         rule: format!(
-            "64 requirement sets (always ⊆ {{x-req-a, Content-Type}}, if-in-request ⊆ {{x-opt-c, ETag}}, prefixes ⊆ {{x-p-, X-Amz}}) x {} letter-case styles x {} ways of building the requirements (slice, VecSignedHeaderRequirements::new, add_*, add_* then remove_* of decoys) x every subset of 7 optional request headers x every signed subset of the present headers and x-amz-date x {{host, :authority, neither}}; every request is correctly signed over exactly the list it declares, so only the requirement rules can refuse it. Oracle: reference verifier (Ok iff host/:authority signed, every always-header signed, every present conditional header signed, every present header matching a prefix — including x-amz-date and authorization-related ones — signed; otherwise SignatureDoesNotMatch/403 and an empty provider log). states = (requirement set, accepted)",
+            "64 requirement sets (always ⊆ {{x-req-a, Content-Type}}, if-in-request ⊆ {{x-opt-c, ETag}}, prefixes ⊆ {{x-p-, X-Amz}}) x {} letter-case styles x {} ways of building the requirements (slice, VecSignedHeaderRequirements::new, add_*, add_* then remove_* of decoys) x every subset of 7 optional request headers (one of them named exactly like the declared prefix x-p-) x every signed subset of the present headers and x-amz-date x {{host, :authority, neither}}; every request is correctly signed over exactly the list it declares, so only the requirement rules can refuse it. Oracle: reference verifier (Ok iff host/:authority signed, every always-header signed, every present conditional header signed, every present header matching a prefix — including x-amz-date and authorization-related ones — signed; otherwise SignatureDoesNotMatch/403 and an empty provider log). states = (requirement set, accepted)",
             if thorough { 3 } else { 3 }, n_build
         ),
         bounds: json!({"requirement_sets": 64, "shapes": n_shapes, "cases": total}),
